@@ -6,8 +6,19 @@ import (
 	"verif/vkit"
 )
 
-var collSeq = vkit.NewCollector("C04", "TestSeq", "sequential histories of subscribe (1-6, sometimes 9-33 handlers; in a quarter of the cases one Once()/Async()/Sequential() option value is reused for every subscription; Once and plain handlers, in a third of the histories Once handlers that subscribe a successor registration while they run, sync/async, plain/context-aware, +-Sequential, filters) and publishes that are eligible, filtered out, made with an already-cancelled context or of another type; oracle = model in which a Once registration is consumed only by an accepted publish with a live context (calls and HandlerCount compared after every step). Non-trivial = a Once handler was skipped (filter or cancelled context) while subscribed and later received an eligible publish.")
+var collSeq = vkit.NewCollector("C04", "TestSeq", "sequential histories of subscribe (1-6, sometimes 9-33 handlers; in a quarter of the cases one Once()/Async()/Sequential() option value is reused for every subscription; Once and plain handlers, plain synchronous handlers that cancel the context of the publish they are handling (histories without asynchronous handlers), in a third of the histories Once handlers that subscribe a successor registration while they run, sync/async, plain/context-aware, +-Sequential, filters) and publishes that are eligible, filtered out, made with an already-cancelled context or of another type; oracle = model in which a Once registration is consumed only by an accepted publish with a live context (calls and HandlerCount compared after every step). Non-trivial = a Once handler was skipped (filter or cancelled context) while subscribed and later received an eligible publish.")
 var collConc = vkit.NewCollector("C04", "TestConc", "2-16 free-running publishers released by a barrier against 1-4 handlers of mixed kinds (option values fresh or shared between the subscriptions), 20 fresh buses per case, race detector on, drawn GOMAXPROCS and Gosched noise; oracle = per Once handler at most one call, exactly one if any eligible publish exists, HandlerCount after quiescence. Non-trivial = a Once handler with >=2 eligible publishes from >=2 concurrent publishers.")
+
+var collProbe = vkit.NewCollector("C04", "TestKnownProbes", "deterministic replay of the history behind the listed known finding")
+
+// TestKnownProbes re-observes the known finding (or reports it as a violation
+// when it is not listed).
+func TestKnownProbes(t *testing.T) {
+	if v := collProbe.Judge(Probes().Viol); v != nil {
+		vkit.SaveFail("C04", "TestKnownProbes", map[string]string{"probe": v.Sig}, v)
+		t.Fatalf("%s", v.Error())
+	}
+}
 
 func TestMain(m *testing.M) { vkit.Main(m) }
 
